@@ -61,15 +61,17 @@ fn space_for(tier: Tier) -> (Space, usize) {
     let n = spansets(SPANSET_INPUT.len()).len() as u64;
     match tier {
         Tier::Quick => {
-            s.ast("K", 5, 64).ast("CL", 3, 64).ast("U", 3, 64).ast("GCM", 4, 64).ast("GCE", 3, 64).ast("CAPQ", 4, 64).ast("ALTC", 5, 64).ast("AN", 3, 64);
+            s.ast("K", 5, 64).ast("CL", 3, 64).ast("U", 3, 64).ast("GCM", 4, 64).ast("GCE", 3, 64).ast("CAPQ", 4, 64).ast("ALTC", 5, 64).ast("AN", 3, 64).ast("NESTN", 4, 64);
             s.ast_range("LP", 1, 3, 32, 5);
             s.list("spansets", n, 64);
+            s.list("literals under q", 8 + 64 + 512, 16);
             (s, 3)
         }
         Tier::Thorough => {
-            s.ast("K", 5, 64).ast("CL", 4, 64).ast("U", 4, 64).ast("GC", 5, 64).ast("GCM", 5, 64).ast("GCE", 4, 64).ast("CAPQ", 5, 64).ast("ALTC", 6, 64).ast("AN", 4, 64);
+            s.ast("K", 5, 64).ast("CL", 4, 64).ast("U", 4, 64).ast("GC", 5, 64).ast("GCM", 5, 64).ast("GCE", 4, 64).ast("CAPQ", 5, 64).ast("ALTC", 6, 64).ast("AN", 4, 64).ast("NESTN", 5, 64);
             s.ast_range("LP", 1, 4, 32, 6);
             s.list("spansets", n, 64);
+            s.list("literals under q", 8 + 64 + 512, 16);
             (s, 4)
         }
     }
@@ -148,8 +150,10 @@ pub fn judge(out: &mut ChunkOut, scope: &str, text: &str, flags: &str, xsd: bool
             &format!("analyze spans {:?}", spans),
         );
     }
+    // under flag q the replacement is a plain string: "$0" is not the match
+    let literal = flags.split(';').next().unwrap_or("").contains('q');
     // 3. replace_all with $0 is the identity
-    if r0 != inp {
+    if !literal && r0 != inp {
         out.fail("C04", &base.clone().repl("$0").api("replace_all"), "ReplaceDollar0NotIdentity", inp, &r0, "");
     }
     // 4. replace_all with a metacharacter-free replacement = tokens joined
@@ -178,7 +182,7 @@ pub fn judge(out: &mut ChunkOut, scope: &str, text: &str, flags: &str, xsd: bool
         }
     }
     // 5. spans via marker replacement
-    if let Out::Ok(rs) = imp::spans_from_replace(re, inp) {
+    if let (false, Out::Ok(rs)) = (literal, imp::spans_from_replace(re, inp)) {
         if rs != spans {
             out.fail(
                 "C04",
@@ -219,7 +223,7 @@ impl Check for C04 {
         let (sp, maxlen) = space_for(ctx.tier);
         let (seg, lo, hi) = sp.locate(chunk);
         let scope_name = space::seg_scope_name(seg);
-        if let SegKind::List { .. } = seg.kind {
+        if let SegKind::List { name: "spansets" } = seg.kind {
             let all = spansets(SPANSET_INPUT.len());
             let chars: Vec<char> = SPANSET_INPUT.chars().collect();
             for i in lo..hi {
@@ -249,6 +253,31 @@ impl Check for C04 {
                     }
                 }
                 out.sample(J::obj(vec![("pattern", J::s(&text)), ("input", J::s(SPANSET_INPUT)), ("intended_spans", J::s(format!("{:?}", spans)))]));
+            }
+            return;
+        }
+        if let SegKind::List { name: "literals under q" } = seg.kind {
+            // every string of 1..3 characters over the alphabet as a literal pattern
+            const QA: [&str; 8] = ["a", "A", "b", ".", "*", "$", "\\", "("];
+            let inputs_base = all_strings(&['a', 'A', 'b', '.'], 3);
+            for i in lo..hi {
+                let (len, idx) = if i < 8 { (1, i) } else if i < 72 { (2, i - 8) } else { (3, i - 72) };
+                let d = crate::util::nth_token_string(&QA, len, idx);
+                let text = crate::gen::tokens_to_string(&QA, &d);
+                let mut inputs = inputs_base.clone();
+                inputs.push(format!("{}{}", text, text));
+                inputs.push(format!("x{}y{}", text, text.to_uppercase()));
+                inputs.push(format!("{}-{}", text.to_lowercase(), text));
+                for flags in ["q", "qi", "qs", "qim"] {
+                    if let Compiled::Ok(re) = common::compile(&text, flags, false) {
+                        out.inc("nontrivial");
+                        for inp in &inputs {
+                            out.pin(&|| format!("{:?} {:?} {:?}", text, flags, inp));
+                            judge(out, &scope_name, &text, flags, false, &re, inp);
+                        }
+                    }
+                }
+                out.sample(J::obj(vec![("literal_pattern", J::s(&text)), ("flags", J::s("q qi qs qim"))]));
             }
             return;
         }
